@@ -354,7 +354,7 @@ def main(run):
                 "non-trivial = an accepted instruction that went through the truncation/junk/stream checks, or an assembler call; distinct by bytes / by (syntax, line)")
     run.assumptions = ["the assembler's documented error is ValueError (raised by p_error, mnemo_from_att, dict_mul, forge_opc, check_imm_size); any other exception type is a failure",
                        "termination: 20 s watchdog only nominates; a hang is reported when the call also executes more than 3*10^6 lines under sys.settrace"]
-    cs = set(x86space.cases(run.tier, run.seed)) | set(x86space.modrm_grid()) | set(x86space.x87_cases()) | set(x86space.control_flow_cases())
+    cs = set(x86space.cases(run.tier, run.seed)) | set(x86space.modrm_grid()) | set(x86space.x87_cases()) | set(x86space.control_flow_cases()) | set(x86space.boundary_value_cases())
     cs |= set(x86space.random_cases(run.pick(20000, 400000), run.seed))
     cs = sorted(cs)
     runner.pmap(run, w_dis, runner.chunks(cs, 64))
